@@ -58,6 +58,9 @@ def oracle(c):
     fails = []
     w = c["wire"]
     window, failed = classify(c)
+    if w and not c.get("sign") and w[0][0] != next_seq(c["seq0"]):
+        window0, failed0 = classify(c)
+        fails.append(("sequence-numbers-not-consecutive", "the first chunk carries sequence number %d, the counter was %d before" % (w[0][0], c["seq0"])))
     for i in range(1, len(w)):
         if w[i][0] != next_seq(w[i - 1][0]):
             key = "renewal-window-duplicate-sequence-numbers" if window else (
@@ -75,8 +78,16 @@ def oracle(c):
 
 
 def run(ctx, mode="c11"):
-    n = 300 if ctx.thorough() else 40
+    n = 300 if ctx.thorough() else 24
     proof_ok, detail = True, {}
+    if ctx.replay:
+        # a replay file names the seed and the scenario; all scenarios are deterministic functions of the seed
+        try:
+            rp = json.load(open(ctx.replay))
+            ctx.seed = int(rp.get("seed", ctx.seed))
+            ctx.log("replaying %s: %s" % (ctx.replay, rp.get("how") or rp.get("broken")))
+        except Exception as e:
+            ctx.log("cannot read replay file: %s" % e)
     ok, out = ctx.regen(["arith", "sendside"])
     if not ok:
         proof_ok = False
